@@ -20,3 +20,32 @@ Theorem C12_unbounded_would_overflow :
   exists text, Z.of_nat (length (render None text)) + 1 > MAX_ERROR_MESSAGE_LENGTH + 1.
 Proof. exact unbounded_primitive_overflows. Qed.
 Print Assumptions C12_unbounded_would_overflow.
+
+(* facts of the source that keep repaired defects repaired: a terminal set is entered into the grammar's hash table only
+   after the (failable) addition to the vector; the dot position of a situation is an int; the cost sums of minimal cost
+   pruning saturate and the visit mark is the complement (no negation that can overflow) *)
+Theorem C12_source_robustness_facts :
+  term_set_entered_after_vector_add = true /\ sit_pos_is_int = true /\ prune_sum_saturates = true /\ visit_mark_is_complement = true.
+Proof. repeat split; reflexivity. Qed.
+Print Assumptions C12_source_robustness_facts.
+
+(* 32-bit int: the saturating sum stays in range and is exact whenever the exact sum is representable; the complement
+   mark of a cost 0..INT_MAX is negative, in range, and undone by a second complement - whereas undoing the mark -c-1 by
+   negation leaves the range for c = INT_MAX *)
+Definition INT_MAX : Z := 2147483647.
+Definition sat_add (a b : Z) : Z := if a >? INT_MAX - b then INT_MAX else a + b.
+Theorem C12_saturating_sum : forall a b, 0 <= a <= INT_MAX -> 0 <= b <= INT_MAX ->
+  0 <= sat_add a b <= INT_MAX /\ (a + b <= INT_MAX -> sat_add a b = a + b).
+Proof.
+  intros a b Ha Hb. unfold sat_add. destruct (Z.gtb_spec a (INT_MAX - b)); split; try lia.
+Qed.
+Print Assumptions C12_saturating_sum.
+
+Theorem C12_complement_mark : forall c, 0 <= c <= INT_MAX ->
+  - INT_MAX - 1 <= Z.lnot c < 0 /\ Z.lnot (Z.lnot c) = c.
+Proof. intros c Hc. rewrite Z.lnot_involutive. unfold Z.lnot, Z.pred. split; [lia | reflexivity]. Qed.
+Print Assumptions C12_complement_mark.
+
+Theorem C12_negation_mark_overflows : exists c, 0 <= c <= INT_MAX /\ - (- c - 1) > INT_MAX.
+Proof. exists INT_MAX. unfold INT_MAX. lia. Qed.
+Print Assumptions C12_negation_mark_overflows.
